@@ -12,6 +12,7 @@ import M17.Model.Callsign
 import M17.Model.Prbs
 import M17.Model.Viterbi
 import M17.Model.Decoder
+import M17.Model.Queue
 
 open M17
 
@@ -43,6 +44,63 @@ def prbsScenario (toks : List Int) : String :=
       go f rest v' ((h * 1000003 + (if r then 1 else 0) + 2 * (if v'.synced then 1 else 0)) % 1000000007)
   let (v, h) := go (toks.length + 1) toks Prbs.init 7
   joinNats [if v.synced then 1 else 0, v.errCount, v.bitCount, v.state, v.syncCount, v.histCount, v.histPos, h]
+
+def stNum : Q.St → Nat | .opn => 0 | .closing => 1 | .closed => 2
+
+/-- sequential op word through the specification queue; an op that would block times out: `false`, state unchanged -/
+def qSeq (cap : Nat) (toks : List Int) : String :=
+  let rec go (fuel : Nat) (toks : List Int) (q : Q.BQ) (acc : List Int) : List Int :=
+    match fuel, toks with
+    | 0, _ => acc
+    | _, [] => acc
+    | f+1, t :: rest =>
+      let (op, rest') : Option Q.Op × List Int :=
+        if t == 1 || t == 2 then (match rest with | v :: r => (some (Q.Op.put v.toNat), r) | [] => (none, []))
+        else if t == 3 || t == 4 then (some Q.Op.get, rest)
+        else if t == 5 then (some Q.Op.close, rest) else if t == 6 then (some Q.Op.isOpen, rest)
+        else if t == 7 then (some Q.Op.isClosed, rest) else if t == 8 then (some Q.Op.size, rest)
+        else if t == 9 then (some Q.Op.empty, rest) else (none, rest)
+      match op with
+      | none => go f rest' q (acc ++ [-9])
+      | some o =>
+        let (q', ok, val) := match q.apply o with
+          | some r => r
+          | none => (q, false, none)
+        let outs : List Int := match o with
+          | .get => [if ok then 1 else 0, match val with | some v => Int.ofNat v | none => -1]
+          | .size => [match val with | some v => Int.ofNat v | none => -1]
+          | _ => [if ok then 1 else 0]
+        go f rest' q' (acc ++ outs)
+  joinInts (go (toks.length + 1) toks { cap := cap, items := [], st := .opn } [])
+
+/-- replay of the critical-section events recorded by the hook through the specification queue -/
+def qTrace (cap : Nat) (ev : List Int) : String :=
+  let rec go (fuel : Nat) (ev : List Int) (q : Q.BQ) (i : Nat) : String :=
+    match fuel, ev with
+    | 0, _ => s!"ok {i}"
+    | _, tag :: val :: size :: state :: rest =>
+      let chk (q' : Q.BQ) : Bool := q'.items.length == size.toNat && stNum q'.st == state.toNat
+      let bad (why : String) := s!"reject event {i} tag {tag}: {why}"
+      let f := fuel - 1
+      if tag == 1 then
+        match q.apply (.put val.toNat) with
+        | some (q', true, _) => if chk q' then go f rest q' (i+1) else bad "size/state after put differ"
+        | _ => bad "put accepted by the implementation but not enabled in the specification (full or not open)"
+      else if tag == 2 then (if q.st != .opn then go f rest q (i+1) else bad "put rejected while open")
+      else if tag == 3 then (if q.items.length == q.cap && q.st == .opn then go f rest q (i+1) else bad "put waits although not (full and open)")
+      else if tag == 4 then
+        match q.apply .get with
+        | some (q', true, some v) => if v == val.toNat && chk q' then go f rest q' (i+1) else bad s!"get returned {val}, specification head is {v} (or size/state differ)"
+        | _ => bad "get returned an item from an empty queue"
+      else if tag == 5 then (if q.st == .closed && q.items.isEmpty then go f rest q (i+1) else bad "get failed although not (closed and empty)")
+      else if tag == 6 then (if q.items.isEmpty && q.st != .closed then go f rest q (i+1) else bad "get waits although not (empty and not closed)")
+      else if tag == 7 then
+        match q.apply .close with
+        | some (q', _, _) => if chk q' then go f rest q' (i+1) else bad "state after close differs"
+        | none => bad "close"
+      else go f rest q (i+1)
+    | _, _ => s!"ok {i}"
+  go (ev.length + 1) ev { cap := cap, items := [], st := .opn } 0
 
 /-- state carried across lines (stateful components get a field each) -/
 structure DrvState where
@@ -124,6 +182,8 @@ def handle (st : DrvState) (op : String) (a : List Int) : DrvState × String :=
   | "dec_frame", sync :: cb :: v =>
     let o := Dec.step st.dec (syncOf sync) v (cb != 0)
     ({ st with dec := o.state }, showStep o)
+  | "qseq", cap :: toks => (st, qSeq cap.toNat toks)
+  | "qtrace", cap :: ev => (st, qTrace cap.toNat ev)
   | _, _ => (st, "bad-op")
 
 partial def loop (h : IO.FS.Stream) (out : IO.FS.Stream) (st : DrvState) : IO Unit := do
